@@ -58,7 +58,12 @@ class SchemaField:
             raise FIXMessageError(f"Field={self.name} has an empty value")
 
         if self.values:
-            if value not in self.values:
+            if self.ftype.upper() == "MULTIPLEVALUESTRING":
+                # several of the enumerated values, separated by single spaces
+                is_listed = all(v in self.values for v in value.split(" "))
+            else:
+                is_listed = value in self.values
+            if not is_listed:
                 raise FIXMessageError(
                     f"Field={self.name} value expected to be one of the"
                     f" {list(self.values.keys())}, got ({value=})"
